@@ -11,13 +11,20 @@ the error classes formulas may catch and the execution logger `zlog` (a harness 
 formula – the ghost `log`).
 Edit ops (besides the value edits): `setref r v` (`space.r = v`: change or create), `delref r` (`del space.r`),
 `setformula c <sexp>` (`cells.formula = …`), `setcached c 0|1` (`cells.is_cached = …`).
+Limit and administrative ops: `maxdepth n` (`mx.set_recursion(n)`), `admin start|stop|get|clear|tracestack`
+(`mx.start_stacktrace()` … `with mx.trace_stack(): pass`), `admin getrecursion|geterror|gettraceback|setsame`
+(`mx.get_recursion()`, `mx.get_error()`, `mx.get_traceback()`, `mx.set_recursion(mx.get_recursion())`); the
+observation `maxdepth` is `mx.get_recursion()`.
 """
 from . import core
 from .expr import Renderer, sexp, parse_sexp, KINDS
 from .impl import mx, close_all, quiet, err_kind
 from modelx.core.errors import DeepReferenceError, NoneReturnedError, FormulaError
 
-OBS = ["values", "graph", "refgraph", "log", "tb", "quiescent"]
+OBS = ["values", "graph", "refgraph", "log", "tb", "quiescent", "maxdepth"]
+
+# administrative calls: they must not change anything an evaluation depends on (op `admin <what>`)
+ADMIN = ["start", "stop", "get", "clear", "tracestack", "getrecursion", "geterror", "gettraceback", "setsame"]
 
 
 def val_s(v):
@@ -64,6 +71,7 @@ class ExecImpl:
         if not nested:
             close_all()
         deep_counter.install()
+        self._stop_trace()
         self.old_depth = mx.get_recursion()
         with quiet():
             self.m = mx.new_model("Mn" if nested else "M")
@@ -99,6 +107,20 @@ class ExecImpl:
 
     def _log(self, cid, key):
         self.log.append(node_s(cid, key))
+        # how deep the formulas are nested right now (the executor's own stack, whichever object it is)
+        d = len(mx.core.mxsys.executor.callstack)
+        if d > self.maxnest:
+            self.maxnest = d
+
+    maxnest = 0
+
+    @staticmethod
+    def _stop_trace():
+        with quiet():
+            try:
+                mx.stop_stacktrace()
+            except Exception:       # noqa: BLE001
+                pass
 
     def ref_space(self, r):
         return 0 if r < self.n_rn else 1
@@ -135,6 +157,7 @@ class ExecImpl:
         self.cells[c["id"]] = cells
 
     def close(self):
+        self._stop_trace()
         mx.set_recursion(self.old_depth)
         if self.nested:
             recalc = mx.get_recalc()
@@ -210,6 +233,11 @@ class ExecImpl:
                 if kind == "setcached":
                     self.cells[int(op[1])].is_cached = (op[2] == "1")
                     return "ok"
+                if kind == "maxdepth":
+                    mx.set_recursion(int(op[1]))
+                    return "ok"
+                if kind == "admin":
+                    return self.admin(op[1])
                 if kind == "obs":
                     return self.observe(op[1])
         except BaseException as e:      # noqa: BLE001
@@ -220,7 +248,34 @@ class ExecImpl:
             return "err " + err_kind(e)
         return "bad-op"
 
+    def admin(self, what):
+        if what == "start":
+            mx.start_stacktrace()
+        elif what == "stop":
+            mx.stop_stacktrace()
+        elif what == "get":
+            mx.get_stacktrace()
+        elif what == "clear":
+            mx.clear_stacktrace()
+        elif what == "tracestack":
+            with mx.trace_stack():
+                pass
+        elif what == "getrecursion":
+            return "ok %d" % mx.get_recursion()
+        elif what == "geterror":
+            mx.get_error()
+        elif what == "gettraceback":
+            mx.get_traceback()
+            mx.get_traceback(show_locals=True)
+        elif what == "setsame":
+            mx.set_recursion(mx.get_recursion())
+        else:
+            return "bad-op"
+        return "ok"
+
     def observe(self, what):
+        if what == "maxdepth":
+            return "maxdepth %d" % mx.get_recursion()
         if what == "values":
             items = []
             for cid, c in self.cells.items():
